@@ -59,6 +59,18 @@ def run(ctx: Ctx):
                 if mode in ((1, 0), (1, 1)):
                     evs.append(gradient_event(n, mode, samp, lazy=lazy, reuse=True))
                     ctx.case(("gradient-reuse", n, mode, samp, lazy))
+    # every evaluation mode for every Fourier mode (a chunking along one axis only shows on fields that vary along that axis)
+    for n in [(9, 7)] if quick else [(8, 8), (9, 7), (12, 10)]:
+        for mode in ((1, 0), (0, 1), (1, 1), (2, -1)):
+            for lazy in (False, "whole", "x_chunks", "y_chunks", "xy_chunks"):
+                evs.append(gradient_event(n, mode, (0.2, 0.15), lazy=lazy))
+                ctx.case(("gradient-all-modes", n, mode, lazy))
+    # counts: patterns of integer dtype (detector counts) next to the float ones
+    for n in sizes[:3] if quick else sizes[::4]:
+        for dtype in ("int32", "uint16", "int64", "float64"):
+            for units in ("1/Å", "mrad"):
+                evs.append(com_event(n, True, units, False, rng, dtype=dtype))
+                ctx.case(("com-dtype", n, units, dtype))
     ctx.exhaustive = not quick
     for e in evs[:1] + evs[-1:]:
         ctx.sample(e)
@@ -68,7 +80,7 @@ def run(ctx: Ctx):
 def replay(ctx: Ctx, case):
     e = case["event"]
     if e["k"] == "com":
-        ev = com_event(tuple(e["n"]), e["shifted"], e["units"], e["lazy"], random.Random(0), reuse=e.get("reuse", False))
+        ev = com_event(tuple(e["n"]), e["shifted"], e["units"], e["lazy"], random.Random(0), reuse=e.get("reuse", False), dtype=e.get("dtype", "float32"))
     else:
         raise Machinery("gradient replays are re-run by the full check")
     ctx.case("replay")
